@@ -17,7 +17,11 @@ of code, average and the root folder's profile are judged too; (6) stream `codeb
 file, every figure read after a prefix and at the end (query before complete); (7) file names from the Pygments-derived
 pools (harness/gen/names.py: BUILD, SConscript, BUILD.bazel, x.hh, x.mjs ... next to same-suffix non-sources AUTHORS,
 LICENSE, defs.bazel) in the in-process check stream (all calls in one process; a failure is re-run in a fresh interpreter
-to tell whether it needs the history) and in `cli-entry` (file arguments in alphabetical / reverse / random order)."""
+to tell whether it needs the history) and in `cli-entry` (file arguments in alphabetical / reverse / random order);
+(8) round 6: functions with a `nocl` suppression marker (negative lengths in the inputs of `cli-entry` and `scan-history`): not
+analysed, so neither listed nor counted nor a reason for exit status 1; `scan-history` also runs through the command function
+scan_command and is then judged on the report `findings` / `report` read back from .codelimit_cache/codelimit.json, and a
+share of the histories is totals-preserving (lengths permuted over one language's functions, lines moved within categories)."""
 import contextlib
 import io
 import os
@@ -469,15 +473,33 @@ def cli_source(name, lengths):
     lang = sel.expected_language(os.path.basename(name))      # by extension or by the whole name (BUILD, SConscript, x.hh, x.mjs)
     parts = []
     for i, n in enumerate(lengths):
+        marked, n = n < 0, abs(n)      # a NEGATIVE length: the function carries a suppression marker (`nocl` comment on its header line) - not analysed
         if lang == "Python":
-            parts.append(sel.py_function("u%d" % i, max(n, 2)) if n > 1 else "def u%d(a): return a\n" % i)
+            t = sel.py_function("u%d" % i, max(n, 2)) if n > 1 else "def u%d(a): return a\n" % i
+            mark = "  " + MARKERS_HASH[(i + n) % len(MARKERS_HASH)]
         elif lang in ("JavaScript", "TypeScript"):
-            parts.append(sel.brace_function("function u%d(a)" % i, max(n, 2)) if n > 1 else "function u%d(a) { return a; }\n" % i)
+            t = sel.brace_function("function u%d(a)" % i, max(n, 2)) if n > 1 else "function u%d(a) { return a; }\n" % i
+            mark = " " + MARKERS_SLASH[(i + n) % len(MARKERS_SLASH)]
         elif lang in ("C", "C++"):
-            parts.append(sel.brace_function("int u%d(int a)" % i, max(n, 2)) if n > 1 else "int u%d(int a) { return a; }\n" % i)
+            t = sel.brace_function("int u%d(int a)" % i, max(n, 2)) if n > 1 else "int u%d(int a) { return a; }\n" % i
+            mark = " " + MARKERS_SLASH[(i + n) % len(MARKERS_SLASH)]
         else:
-            parts.append("text %d\n" % i)
+            t, marked = "text %d\n" % i, False
+        if marked:
+            head, rest = t.split("\n", 1)
+            t = head + mark + "\n" + rest
+        parts.append(t)
     return "\n".join(parts)
+
+
+MARKERS_HASH = ["# nocl", "#nocl", "# NOCL", "# nocl: generated"]
+MARKERS_SLASH = ["// nocl", "//nocl", "/* NOCL */", "// NoCL generated code"]
+MARKED_LENGTHS = [31, 45, 60, 61, 75, 200]
+
+
+def live(ls):
+    """the lengths of the functions that are analysed (a negative entry = function with a suppression marker)"""
+    return [v for v in ls if v >= 0]
 
 
 def cli_pool_names(rnd):
@@ -516,6 +538,9 @@ def gen_cli_case(rnd, quiet, verbose_how, cls, form, named=None):
         files[src[0] if named else rnd.choice(src)].append(rnd.choice(CLI_CLASSES[cls]))
         if rnd.random() < 0.5:
             files[rnd.choice(src)].append(rnd.choice(CLI_CLASSES["warn"]))
+    if src and rnd.random() < 0.4:
+        # a function longer than 30 / 60 lines with a suppression marker: scan, findings and the counters leave it out, so must check
+        files[rnd.choice(src)].append(-rnd.choice(MARKED_LENGTHS))
     for n in files:
         rnd.shuffle(files[n])
     config = {"none": rnd.choice([None, None, "exclude:\n- web/\n"]), "option": rnd.choice([None, "verbose: false\n"]),
@@ -552,7 +577,7 @@ def cli_expected(case):
             line, rows = 1, []
             for i, L in enumerate(case["files"][n]):
                 rows.append([n, line, L, "u%d" % i])
-                line += max(L, 1) + 1
+                line += max(abs(L), 1) + 1
             checked[n] = sorted([r for r in rows if r[2] > 30], key=lambda r: -r[2])
     total = sum(len(v) for v in checked.values())
     code = 1 if any(r[2] > 60 for v in checked.values() for r in v) else 0
@@ -658,12 +683,15 @@ def cli_entry_stream(ctx):
         observed = list(ex.map(run_cli_case, cases))
     fails = []
     stats = {"processes": len(cases), "calls": 0, "quiet": 0, "verbose_on": 0, "must_be_silent": 0, "second_call_in_process": 0,
-             "with_exclusions": 0, "exit_1": 0, "with_pool_named_file_and_same_suffix_non_sources": 0}
+             "with_exclusions": 0, "exit_1": 0, "with_pool_named_file_and_same_suffix_non_sources": 0,
+             "with_marked_function_longer_than_30": 0, "with_marked_function_longer_than_60": 0}
     for c, obs in zip(cases, observed):
         stats["with_pool_named_file_and_same_suffix_non_sources"] += 1 if any(
             sel_lang(os.path.basename(n)) is None and not n.endswith(".txt") for n in c["files"]) else 0
         bad = cli_judge(c, obs)
         exp = cli_expected(c)
+        stats["with_marked_function_longer_than_30"] += 1 if any(v < -30 for l in c["files"].values() for v in l) else 0
+        stats["with_marked_function_longer_than_60"] += 1 if any(v < -60 for l in c["files"].values() for v in l) else 0
         stats["calls"] += len(obs)
         stats["quiet"] += 1 if c["quiet"] else 0
         stats["verbose_on"] += 1 if (c["verbose"] or (c["config"] or "").startswith("verbose: true")) else 0
@@ -689,14 +717,27 @@ HIST_DIRS = ["", "web", "src", "src/deep", "lib"]
 HIST_STEMS = ["app", "core", "util", "main", "api"]
 
 
-def gen_history_case(rnd):
+def gen_history_case(rnd, preserving=None):
     files = {}
     for _ in range(rnd.choice([2, 3, 4, 5])):
         d = rnd.choice(HIST_DIRS)
         name = (d + "/" if d else "") + rnd.choice(HIST_STEMS) + rnd.choice(list(HIST_LANG))
         files[name] = [rnd.choice(BOUNDARY + [3, 45, 75, 120]) for _ in range(rnd.choice([1, 2, 3]))]
+        if rnd.random() < 0.2:
+            files[name].insert(rnd.randrange(len(files[name]) + 1), -rnd.choice(MARKED_LENGTHS))     # function with a suppression marker
     steps = []
     cur = dict(files)
+    entry = rnd.choice(["scan_path", "scan_path", "scan_codebase", "scan_command", "scan_command"])
+    if preserving is None:
+        preserving = rnd.random() < 0.4
+    if preserving:
+        # totals-preserving history: every per-language total (files, lines of code, functions, 31..60, > 60) stays as it
+        # is while the functions behind the numbers change
+        for _ in range(rnd.choice([1, 1, 2])):
+            steps += preserving_steps(rnd, cur)
+        if steps:
+            return {"stream": "scan-history", "files": files, "steps": steps, "verbose": rnd.random() < 0.5, "entry": entry,
+                    "totals_preserving": True}
     for _ in range(rnd.choice([1, 2, 2, 3])):
         r = rnd.random()
         names = sorted(cur)
@@ -720,8 +761,49 @@ def gen_history_case(rnd):
         elif names and len(names) > 1:
             src = rnd.choice(names)
             steps.append(["delete", src]); del cur[src]
-    return {"stream": "scan-history", "files": files, "steps": steps, "verbose": rnd.random() < 0.5,
-            "entry": rnd.choice(["scan_path", "scan_path", "scan_codebase"])}
+    return {"stream": "scan-history", "files": files, "steps": steps, "verbose": rnd.random() < 0.5, "entry": entry}
+
+
+CAT_RANGE = [(1, 15), (16, 30), (31, 60), (61, 100000)]
+
+
+def preserving_steps(rnd, cur):
+    """`write` steps that keep every per-language total: the lengths of one language's functions are permuted over their
+    positions (two functions trade places across a threshold, a long function moves to another file), or n lines move from
+    one function to another while both stay in their categories (40 -> 35, 61 -> 66). `cur` is updated."""
+    by_lang = {}
+    for n in sorted(cur):
+        for i, v in enumerate(cur[n]):
+            if v > 0:
+                by_lang.setdefault(HIST_LANG[os.path.splitext(n)[1]], []).append((n, i))
+    langs = [l for l, pos in sorted(by_lang.items()) if len(pos) >= 2]
+    if not langs:
+        return []
+    pos = by_lang[rnd.choice(langs)]
+    new = {n: list(ls) for n, ls in cur.items()}
+    if rnd.random() < 0.6:
+        vals = [cur[n][i] for n, i in pos]
+        for _ in range(5):
+            rnd.shuffle(vals)
+            if vals != [cur[n][i] for n, i in pos]:
+                break
+        for (n, i), v in zip(pos, vals):
+            new[n][i] = v
+    else:
+        (n1, i1), (n2, i2) = rnd.sample(pos, 2)
+        v1, v2 = cur[n1][i1], cur[n2][i2]
+        room = min(v1 - CAT_RANGE[cat(v1)][0], CAT_RANGE[cat(v2)][1] - v2, 9)
+        if room < 1:
+            return []
+        d = rnd.randint(1, room)
+        new[n1][i1], new[n2][i2] = v1 - d, v2 + d
+    steps = []
+    for n in sorted(new):
+        if new[n] != cur[n]:
+            when = rnd.choice([None, None, None, "keep"])
+            steps.append(["write", n, list(new[n])] + ([when] if when is not None else []))
+            cur[n] = new[n]
+    return steps
 
 
 def history_after(case):
@@ -742,7 +824,7 @@ def counters_expected(files):
     out = {}
     for n, ls in files.items():
         t = out.setdefault(HIST_LANG[os.path.splitext(n)[1]], {"files": 0, "functions": 0, "hard_to_maintain": 0, "unmaintainable": 0})
-        t["files"] += 1; t["functions"] += len(ls)
+        t["files"] += 1; t["functions"] += len(live(ls))
         t["hard_to_maintain"] += sum(1 for v in ls if 30 < v <= 60)
         t["unmaintainable"] += sum(1 for v in ls if v > 60)
     return out
@@ -764,7 +846,7 @@ def observe_codebase(cb, aggregate=True):
 
 def profile_expected(files):
     """the LOC-weighted quality profile, the lines of code, the number of functions and the average - from the lengths"""
-    ls = [v for l in files.values() for v in l]
+    ls = [v for l in files.values() for v in live(l)]
     prof = [0, 0, 0, 0]
     for v in ls:
         prof[cat(v)] += v
@@ -800,9 +882,20 @@ def run_history_case(case):
         sel.reset_configuration()
         from codelimit.common.Configuration import Configuration
         Configuration.verbose = bool(case.get("verbose"))        # `codelimit scan --verbose` / `verbose: true` in .codelimit.yml
-        how = "%s, Configuration.verbose=%s" % (case.get("entry", "scan_path"), bool(case.get("verbose")))
+        how = "%s, Configuration.verbose=%s" % ("scan_command, then the report that findings / report read from .codelimit_cache/codelimit.json"
+                                                if case.get("entry") == "scan_command" else case.get("entry", "scan_path"), bool(case.get("verbose")))
 
         def scan(cached_report=None):
+            if case.get("entry") == "scan_command":
+                # the command function behind `codelimit scan` (reads and writes .codelimit_cache/codelimit.json itself);
+                # observed is what `codelimit findings` / `codelimit report` read afterwards
+                from pathlib import Path
+                from rich.console import Console
+                from codelimit.commands.scan import scan_command
+                from codelimit.utils import read_report, make_report_path
+                with contextlib.redirect_stdout(io.StringIO()), contextlib.redirect_stderr(io.StringIO()):
+                    scan_command(Path(root))
+                return read_report(make_report_path(Path(root)), Console(file=io.StringIO())).codebase
             if case.get("entry") == "scan_codebase":         # what scan_command calls (progress table, callbacks)
                 from pathlib import Path
                 from codelimit.common import Scanner
@@ -819,8 +912,9 @@ def run_history_case(case):
         t1, u1 = observe_codebase(cb1, aggregate=False)
         if t1 != counters_expected(case["files"]) or u1 != findings_expected(case["files"]):
             bad.append("first scan: counters %s findings %s, required %s %s" % (t1, u1, counters_expected(case["files"]), findings_expected(case["files"])))
+        from_file = case.get("entry") == "scan_command"      # a code base read back from the report: aggregated by the reader, folder profiles are not part of the file
         root_profile = list(cb1.tree["./"].profile)
-        if root_profile != profile_expected(case["files"])["profile"]:
+        if not from_file and root_profile != profile_expected(case["files"])["profile"]:
             bad.append("first scan (%s): profile of the root folder %s, required %s" % (how, root_profile, profile_expected(case["files"])["profile"]))
         for st in case["steps"]:
             if st[0] == "copy":
@@ -845,13 +939,13 @@ def run_history_case(case):
         p2 = observe_profile(cb2)
         if p2 != profile_expected(after):
             bad.append("second scan (first report handed back; %s): quality profile / lines of code / functions / average %s, required %s" % (how, p2, profile_expected(after)))
-        t2, u2 = observe_codebase(cb2)
-        if list(cb2.tree["./"].profile) != profile_expected(after)["profile"]:
+        t2, u2 = observe_codebase(cb2, aggregate=not from_file)
+        if not from_file and list(cb2.tree["./"].profile) != profile_expected(after)["profile"]:
             bad.append("second scan (%s): profile of the root folder %s, required %s" % (how, list(cb2.tree["./"].profile), profile_expected(after)["profile"]))
         if t2 != counters_expected(after):
-            bad.append("second scan (first report handed back): per-language counters %s, required %s" % (t2, counters_expected(after)))
+            bad.append("second scan (first report handed back; %s): per-language counters %s, required %s" % (how, t2, counters_expected(after)))
         if u2 != findings_expected(after):
-            bad.append("second scan (first report handed back): findings %s, required %s" % (u2, findings_expected(after)))
+            bad.append("second scan (first report handed back; %s): findings %s, required %s" % (how, u2, findings_expected(after)))
         # the check command on the same files must raise the alarm for the same functions
         os.chdir(root)
         r = sel.run_check(["."])
@@ -871,8 +965,12 @@ def run_history_case(case):
 def scan_history_stream(ctx):
     rnd = ctx.rng("scan-history")
     cases = [gen_history_case(rnd) for _ in range(ctx.pick(30, 300))]
+    cases += [gen_history_case(rnd, True) for _ in range(ctx.pick(16, 200))]
     fails = []
-    stats = {"histories": len(cases), "steps": {}, "renamed_to_other_language": 0, "verbose": sum(1 for c in cases if c["verbose"]),
+    stats = {"histories": len(cases), "steps": {}, "totals_preserving": sum(1 for c in cases if c.get("totals_preserving")),
+             "through_scan_command_observed_in_the_written_report": sum(1 for c in cases if c["entry"] == "scan_command"),
+             "totals_preserving_through_scan_command": sum(1 for c in cases if c.get("totals_preserving") and c["entry"] == "scan_command"),
+             "with_marked_function": sum(1 for c in cases if any(v < 0 for l in c["files"].values() for v in l)), "renamed_to_other_language": 0, "verbose": sum(1 for c in cases if c["verbose"]),
              "through_scan_codebase": sum(1 for c in cases if c["entry"] == "scan_codebase"),
              "rewritten_with_old_mtime": sum(1 for c in cases for st in c["steps"] if st[0] == "write" and len(st) > 3)}
     for c in cases:
@@ -962,6 +1060,6 @@ def correspond(ctx):
     res["oracle_failures"] = list(res["oracle_failures"][:8]) + gfails[:3] + list(res["oracle_failures"][8:])
     res["evaluations"] += gstats["cases"]
     res["distribution"]["codebase_growth"] = gstats
-    res["rule"] += "; each history runs under Configuration.verbose on or off (%d on) and through scan_path or scan_codebase (%d), rewritten files partly keep / get an OLD modification time (%d), and the LOC-weighted quality profile, lines of code, number of functions, average and the root folder's profile are judged as well, the profile read first; PLUS codebase-growth: %d Codebase objects filled file by file, every figure read after a prefix (%d reads before completion) and at the end" % (hstats["verbose"], hstats["through_scan_codebase"], hstats["rewritten_with_old_mtime"], gstats["cases"], gstats["reads_before_complete"])
+    res["rule"] += "; each history runs under Configuration.verbose on or off (%d on) and through scan_path or scan_codebase (%d), rewritten files partly keep / get an OLD modification time (%d), and the LOC-weighted quality profile, lines of code, number of functions, average and the root folder's profile are judged as well, the profile read first; %d histories run through the command function scan_command (which reads and writes .codelimit_cache/codelimit.json itself) and are judged on the report that `findings` / `report` read back from that file; %d histories are totals-preserving (the lengths of one language's functions permuted over their positions / files, or n lines moved between two functions within their categories: every per-language total stays while findings and the profile change; %d of them through scan_command); functions with a `nocl` marker on the header line (any spelling; negative lengths in the inputs) are in %d histories and %d cli-entry invocations (%d with a marked function longer than 60 lines): they are not analysed - not listed, not counted, no exit status 1; PLUS codebase-growth: %d Codebase objects filled file by file, every figure read after a prefix (%d reads before completion) and at the end" % (hstats["verbose"], hstats["through_scan_codebase"], hstats["rewritten_with_old_mtime"], hstats["through_scan_command_observed_in_the_written_report"], hstats["totals_preserving"], hstats["totals_preserving_through_scan_command"], hstats["with_marked_function"], cstats["with_marked_function_longer_than_30"], cstats["with_marked_function_longer_than_60"], gstats["cases"], gstats["reads_before_complete"])
     res["rule"] += " PLUS real check_command / CheckResult.report output lines (path as printed from any working directory, position, length, symbol, summary) vs Model/CheckPrint.lean (Props/Gaps.lean part 3)"
     return res
